@@ -111,6 +111,20 @@ def r2(cx, rec):
         rec.site(R, cb, 'parse-before-read')
         rec.need(ok, 'read-before-parse', R, rb, 'the socket can be read without first parsing buffered data')
         rec.need(cb in R.reach_from(rb), 'reader-no-loop', R, rb, 'after reading, the buffer is not parsed again')
+    # the bytes are read into the connection's own buffer, in place: the receive future is one arm of a select! and is dropped
+    # whenever another arm wins, so bytes read into a local (buffer moved out for the read, put back afterwards) are lost with it
+    buf = mirq.strip(R.expr_call(rb)[2][1])
+    bp = access_path(buf) or ''
+    inplace = bp.startswith('self.') and C.is_param(R, buf)
+    rec.site(R, rb, 'read_buf fills %s' % (bp or show(buf)[:60]))
+    rec.need(inplace, 'read-buffer-not-in-place', R, rb,
+             'read_buf fills %s, not a field of the connection: when the pending receive is cancelled between two reads (another '
+             'select! arm wins) the bytes already received are dropped and the stream is desynchronised' % (bp or show(buf)[:60]))
+    if inplace:
+        for bb in mirq.real_calls(R):
+            e = R.expr_call(bb)
+            if e[4].get('name') in ('take', 'replace', 'swap') and e[1].startswith('std::mem::') and any((access_path(mirq.strip(a)) or '') == bp for a in e[2]):
+                rec.violation('read-buffer-moved-out', R, bb, 'the receive buffer %s is moved out of the connection (%s) in the function that awaits the socket' % (bp, e[1]))
 
 
 def available_expr(F, e):
